@@ -371,6 +371,12 @@ def build_cases(tier="quick"):
 
     for c in c15.frontier_cases():
         ref.append(Case(f"{PROP}/__main__._compute_frontier#shared-call-sequence", c.case, c.harness, replay=c.replay, sources=c.sources))
+    from contracts import c05
+
+    for c in c05.context_cases():
+        ref.append(Case(f"{PROP}/solve.SolvingContext#per-test-state", c.case, c.harness, replay=c.replay, sources=c.sources))
+    for c in c09.create_cases():
+        ref.append(Case(f"{PROP}/sevm.SEVM.create#callback-ownership", c.case, c.harness, replay=c.replay, sources=c.sources))
     for c in c09.callback_cases():
         ref.append(Case(f"{PROP}/sevm.SEVM.call#callback-ownership", c.case, c.harness, replay=c.replay, sources=c.sources))
     for c in c08.offsetmap_cases():
